@@ -1,0 +1,45 @@
+//go:build verif
+
+// Contracts for the govc verifier (/verif). This file contains comments only; it is compiled
+// only under the build tag "verif" and contributes no declarations.
+package logical
+
+// ---------------------------------------------------------------------------------------------
+// VRF qualification arithmetic (C16). big.Rat values are exact reals; Rat.Float64 is modelled by its
+// rounding envelope (relative error <= 2^-53). rat1 is the package constant 1 set in init().
+
+//@ func calQn
+//@   property C16
+//@   option intmode=math
+//@   requires vrfValueRatio != nil && stakeRatio != nil && vrfValueRatio != stakeRatio && rat1 != nil && rat1 != stakeRatio && val(rat1) == real(1)
+//@   requires [cfg] model.Param.MaxQN >= 1 && model.Param.MaxQN <= 100
+//@   requires [dom] val(vrfValueRatio) >= real(0) && val(vrfValueRatio) <= real(1) && val(stakeRatio) * real(100000000000000000) >= real(1)
+//@   ensures [clamp] val(stakeRatio) == ite(old(val(stakeRatio)) > real(1), real(1), old(val(stakeRatio))) && val(vrfValueRatio) == old(val(vrfValueRatio))
+//@   ensures [low]   result >= 1
+//@   ensures [range] old(val(vrfValueRatio)) < old(val(stakeRatio)) ==> result <= uint64(model.Param.MaxQN)
+//@   modifies *stakeRatio
+
+//@ func calcPotentialProposal
+//@   property C16
+//@   option intmode=math
+//@   requires totalStake <= 10000000000000000 && param.PotentialProposalIndex >= 0 && param.PotentialProposalIndex <= 100
+//@   ensures [clamp] param.PotentialProposal <= param.PotentialProposalMax ==> result >= param.PotentialProposal && result <= param.PotentialProposalMax
+//@   modifies nothing
+
+//@ func calcStakeRatio
+//@   property C16
+//@   option intmode=math
+//@   requires totalStake >= 1 && totalStake <= 9000000000000000 && difficulty >= 1 && difficulty <= totalStake
+//@   requires [cfg] model.Param.PotentialProposalIndex >= 0 && model.Param.PotentialProposalIndex <= 100 && model.Param.PotentialProposal >= 1 && model.Param.PotentialProposal <= model.Param.PotentialProposalMax && model.Param.PotentialProposalMax <= 1000
+//@   ensures [pos]   result != nil && val(result) > real(0)
+//@   ensures [value] val(result) * real(totalStake) >= real(difficulty) * real(model.Param.PotentialProposal) && val(result) * real(totalStake) <= real(difficulty) * real(model.Param.PotentialProposalMax)
+//@   modifies nothing
+
+// Header transport: a proof shorter than 80 bytes (leading zero bytes dropped by big.Int) is left-padded back.
+//@ func tryZeroPadding
+//@   property C16
+//@   ensures [keep] len(pi) >= 80 ==> len(result) == len(pi) && ref(result) == ref(pi) && off(result) == off(pi)
+//@   ensures [len]  len(pi) < 80 ==> len(result) == 80 && fresh(result)
+//@   ensures [data] len(pi) < 80 ==> forall i int :: 0 <= i && i < len(pi) ==> result[80 - len(pi) + i] == pi[i]
+//@   ensures [zero] len(pi) < 80 ==> forall j int :: 0 <= j && j < 80 - len(pi) ==> result[j] == 0
+//@   modifies nothing
